@@ -543,6 +543,40 @@ fn fam_longhay(t: &mut Tracer, rng: &mut Rng, cx: &Ctx) {
     run_block::<u32>(t, rng, cx, &spec, &[], std::slice::from_ref(&hay), &[], false);
 }
 
+/// A scenario small enough for an interpreter (Miri): tiny automata with num_free_blocks 1, every
+/// search method through the slice, byte-iterator and by-value entry points, one round trip.
+/// No table dump (the 256-label sweep is what makes the other families slow under Miri).
+fn fam_miri(t: &mut Tracer, rng: &mut Rng, _cx: &Ctx) {
+    for var in [Var::B, Var::C] {
+        let mut alpha = pick_alphabet(rng, var);
+        if var == Var::C {
+            // pattern characters below U+0800 keep the mapper table small (its loops dominate under
+            // an interpreter); 3- and 4-byte characters still occur in the haystacks
+            alpha = Alpha { pat: vec![0x61, 0xe9, 0x7ff], extra: vec![0x4e16, 0x1f600, 0x10ffff, 0x62] };
+        }
+        let kind = *rng.pick(&[Kind::Std, Kind::LL, Kind::LF]);
+        let np = rng.range(1, 3);
+        let pats = gen_patterns(rng, &alpha.pat, np, 3);
+        let spec = BuildSpec { var, kind, entry: "new", via_builder: true, nfb: 1, pats };
+        let (h, pma) = ev_build::<u32>(t, &spec, &[]);
+        let Some(pma) = pma else { continue };
+        let hays: Vec<Rc<Vec<u8>>> = (0..2).map(|_| Rc::new(gen_haystack(rng, var, &alpha, 9, &spec.pats))).collect();
+        for hay in &hays {
+            for m in kind.methods() {
+                ev_search(t, h, &pma, m, "slice", hay, 0);
+                ev_search(t, h, &pma, m, "owned", hay, 0);
+                if *m != "lm" {
+                    ev_search(t, h, &pma, m, "iter", hay, 0);
+                }
+            }
+        }
+        let (h2, p2) = ev_roundtrip(t, h, &pma, &[5]);
+        for m in kind.methods() {
+            ev_search(t, h2, &p2, m, "slice", &hays[0], 0);
+        }
+    }
+}
+
 /// C10: collections with defects injected at random positions
 fn invalid_typed<V: Val>(t: &mut Tracer, rng: &mut Rng, _cx: &Ctx, var: Var, kind: Kind) {
     let mut alpha = pick_alphabet(rng, var);
@@ -1058,7 +1092,11 @@ pub fn family_of(prop: &str, i: u64) -> &'static str {
 }
 
 pub fn run_scenario(t: &mut Tracer, prop: &str, thorough: bool, seed: u64, i: u64) {
-    let fam = family_of(prop, i);
+    let mut fam = family_of(prop, i);
+    // under an interpreter (Miri) only the light families are affordable
+    if std::env::var_os("VH_LIGHT").is_some() {
+        fam = if i % 5 == 4 { "decode" } else { "miri" };
+    }
     let sc_seed = seed.wrapping_mul(0x1000_0000_01b3).wrapping_add(i).wrapping_add(hash_str(prop));
     t.reset(i, fam, seed);
     let mut rng = Rng::new(sc_seed);
@@ -1077,6 +1115,7 @@ pub fn run_scenario(t: &mut Tracer, prop: &str, thorough: bool, seed: u64, i: u6
         "shadow" => fam_shadow(t, &mut rng, &cx),
         "bigindex" => fam_bigindex(t, &mut rng, &cx),
         "wide" => fam_wide(t, &mut rng, &cx),
+        "miri" => fam_miri(t, &mut rng, &cx),
         "longhay" => fam_longhay(t, &mut rng, &cx),
         "chain" => fam_chain(t, &mut rng, &cx),
         "longpat" => fam_longpat(t, &mut rng, &cx),
